@@ -210,6 +210,39 @@ theorem writeSKeys_map {α : Type} (get : α → Except St SKey) (g : α → SKe
     · rfl
     · rw [ih _ (fun y hy => hg y (by simp [hy]))]
 
+theorem crossDup_map {α β : Type} (getP : α → Except St PKey) (gP : α → PKey) (getS : β → Except St SKey) (gS : β → SKey)
+    (lp : List α) (ls : List β) (hP : ∀ x ∈ lp, getP x = .ok (gP x)) (hS : ∀ y ∈ ls, getS y = .ok (gS y)) :
+    crossDup getP getS lp ls = crossDup (fun k => Except.ok k) (fun k => Except.ok k) (lp.map gP) (ls.map gS) := by
+  generalize hn : lp.length + ls.length = n
+  induction n using Nat.strongRecOn generalizing lp ls with
+  | _ n ih =>
+    cases lp with
+    | nil => simp [crossDup]
+    | cons x xs =>
+      cases ls with
+      | nil => simp [crossDup]
+      | cons y ys =>
+        rw [List.map_cons, List.map_cons, crossDup, crossDup]
+        simp only [hP x (by simp), hS y (by simp)]
+        rcases hc : strcmp (gP x).key (gS y).key with _ | _ | _
+        · simp only []
+          rw [ih (xs.length + (y :: ys).length) (by subst hn; simp) xs (y :: ys)
+            (fun a ha => hP a (by simp [ha])) hS rfl, List.map_cons]
+        · rfl
+        · simp only []
+          rw [ih ((x :: xs).length + ys.length) (by subst hn; simp) (x :: xs) ys hP
+            (fun a ha => hS a (by simp [ha])) rfl, List.map_cons]
+
+/-- any `strcmp`-sorted arrangements of the two key classes give the merge pass the same answer -/
+theorem crossDup_any_sorted (P L : List PKey) (S M : List SKey) (hp : L.Perm P) (hs : M.Perm S)
+    (hL : L.Pairwise (fun a b => keyLe a.key b.key = true)) (hM : M.Pairwise (fun a b => keyLe a.key b.key = true)) :
+    crossDup (fun k => Except.ok k) (fun k => Except.ok k) L M
+      = crossDup (fun k => Except.ok k) (fun k => Except.ok k) (sortPKeys P) (sortSKeys S) := by
+  rw [crossDup_spec L M hL hM, crossDup_spec _ _ (sortPKeys_sorted P) (sortSKeys_sorted S)]
+  have e1 := NoCommon.perm hp hs
+  have e2 := NoCommon.perm (sortPKeys_perm P) (sortSKeys_perm S)
+  by_cases hh : NoCommon P S <;> simp [hh, e1, e2]
+
 /-- any `strcmp`-sorted arrangement of the keys gives the same result as the `qsort`ed one -/
 theorem writePKeys_any_sorted (plen : Nat) (P L : List PKey) (hperm : L.Perm P)
     (hsorted : L.Pairwise (fun a b => keyLe a.key b.key = true))
@@ -391,11 +424,112 @@ theorem ext_ssec {ns : NewSsi} (h : ns.WF) (hx : ns.ExtOK) :
   · intro k hk
     exact h.skey k hk
 
+/-- the sorted primary-key tmp file, parsed line by line: every line parses, and the parsed stream is a `strcmp`-sorted
+    rearrangement of the keys -/
+theorem ext_plines {ns : NewSsi} (h : ns.WF) (hx : ns.ExtOK) :
+    (∀ x ∈ sortLines (ns.pkeys.map pkeyLine), parsePKey x = .ok (unP x)) ∧
+    ((sortLines (ns.pkeys.map pkeyLine)).map unP).Perm ns.pkeys ∧
+    ((sortLines (ns.pkeys.map pkeyLine)).map unP).Pairwise (fun a b => keyLe a.key b.key = true) := by
+  have hline : ∀ k ∈ ns.pkeys, parsePKey (pkeyLine k) = .ok k := by
+    intro k hk
+    have w := h.pkey k hk
+    exact parsePKey_line k w.1 (hx.pchars k hk).noDelim w.2.2.2.1 w.2.2.2.2.1 w.2.2.2.2.2.1 w.2.2.2.2.2.2
+  have hun : ∀ k ∈ ns.pkeys, unP (pkeyLine k) = k := by
+    intro k hk; simp [unP, hline k hk]
+  have hmemS : ∀ x ∈ sortLines (ns.pkeys.map pkeyLine), ∃ k ∈ ns.pkeys, x = pkeyLine k := by
+    intro x hxm
+    have := (sortLines_perm _).mem_iff.mp hxm
+    obtain ⟨k, hk, rfl⟩ := List.mem_map.mp this
+    exact ⟨k, hk, rfl⟩
+  refine ⟨?_, ?_, ?_⟩
+  · intro x hxm
+    obtain ⟨k, hk, rfl⟩ := hmemS x hxm
+    rw [hun k hk, hline k hk]
+  · have p1 : ((sortLines (ns.pkeys.map pkeyLine)).map unP).Perm ((ns.pkeys.map pkeyLine).map unP) :=
+      (sortLines_perm _).map unP
+    have p2 : (ns.pkeys.map pkeyLine).map unP = ns.pkeys := by
+      rw [List.map_map]
+      conv => rhs; rw [← List.map_id ns.pkeys]
+      exact List.map_congr_left (fun k hk => by simp [hun k hk])
+    rw [p2] at p1
+    exact p1
+  · rw [List.pairwise_map]
+    apply List.Pairwise.imp_of_mem _ (sortLines_sorted _)
+    intro a b ha hb hab
+    obtain ⟨ka, hka, rfl⟩ := hmemS a ha
+    obtain ⟨kb, hkb, rfl⟩ := hmemS b hb
+    rw [hun ka hka, hun kb hkb]
+    obtain ⟨xa, ea⟩ := pkeyLine_split ka
+    obtain ⟨xb, eb⟩ := pkeyLine_split kb
+    rw [ea, eb] at hab
+    exact keyLe_of_lineLe _ _ _ _ (hx.pchars ka hka) hab
+
+/-- the same for the alias tmp file -/
+theorem ext_slines {ns : NewSsi} (h : ns.WF) (hx : ns.ExtOK) :
+    (∀ x ∈ sortLines (ns.skeys.map skeyLine), parseSKey x = .ok (unS x)) ∧
+    ((sortLines (ns.skeys.map skeyLine)).map unS).Perm ns.skeys ∧
+    ((sortLines (ns.skeys.map skeyLine)).map unS).Pairwise (fun a b => keyLe a.key b.key = true) := by
+  have hline : ∀ k ∈ ns.skeys, parseSKey (skeyLine k) = .ok k := by
+    intro k hk
+    have w := h.skey k hk
+    have c := hx.schars k hk
+    exact parseSKey_line k w.1 c.1.noDelim c.2.1 c.2.2
+  have hun : ∀ k ∈ ns.skeys, unS (skeyLine k) = k := by
+    intro k hk; simp [unS, hline k hk]
+  have hmemS : ∀ x ∈ sortLines (ns.skeys.map skeyLine), ∃ k ∈ ns.skeys, x = skeyLine k := by
+    intro x hxm
+    have := (sortLines_perm _).mem_iff.mp hxm
+    obtain ⟨k, hk, rfl⟩ := List.mem_map.mp this
+    exact ⟨k, hk, rfl⟩
+  refine ⟨?_, ?_, ?_⟩
+  · intro x hxm
+    obtain ⟨k, hk, rfl⟩ := hmemS x hxm
+    rw [hun k hk, hline k hk]
+  · have p1 : ((sortLines (ns.skeys.map skeyLine)).map unS).Perm ((ns.skeys.map skeyLine).map unS) :=
+      (sortLines_perm _).map unS
+    have p2 : (ns.skeys.map skeyLine).map unS = ns.skeys := by
+      rw [List.map_map]
+      conv => rhs; rw [← List.map_id ns.skeys]
+      exact List.map_congr_left (fun k hk => by simp [hun k hk])
+    rw [p2] at p1
+    exact p1
+  · rw [List.pairwise_map]
+    apply List.Pairwise.imp_of_mem _ (sortLines_sorted _)
+    intro a b ha hb hab
+    obtain ⟨ka, hka, rfl⟩ := hmemS a ha
+    obtain ⟨kb, hkb, rfl⟩ := hmemS b hb
+    rw [hun ka hka, hun kb hkb]
+    rw [skeyLine_split ka, skeyLine_split kb] at hab
+    exact keyLe_of_lineLe _ _ _ _ (hx.schars ka hka).1 hab
+
+/-- the merge pass over the two sorted tmp files answers like the merge pass over the two `qsort`ed arrays -/
+theorem ext_cross {ns : NewSsi} (h : ns.WF) (hx : ns.ExtOK) :
+    crossDup parsePKey parseSKey (sortLines (ns.pkeys.map pkeyLine)) (sortLines (ns.skeys.map skeyLine))
+      = crossDup (fun k => Except.ok k) (fun k => Except.ok k) (sortPKeys ns.pkeys) (sortSKeys ns.skeys) := by
+  obtain ⟨p1, p2, p3⟩ := ext_plines h hx
+  obtain ⟨s1, s2, s3⟩ := ext_slines h hx
+  rw [crossDup_map parsePKey unP parseSKey unS _ _ p1 s1]
+  exact crossDup_any_sorted ns.pkeys _ ns.skeys _ p2 s2 p3 s3
+
 /-- **internal bytes = external bytes**: `Write` after the switch to the on-disk sort returns the same status and
     emits the same file as `Write` of the in-memory index, duplicates included -/
 theorem writeBytes_toExternal (ns : NewSsi) (h : ns.WF) (hx : ns.ExtOK) : ns.toExternal.writeBytes = ns.writeBytes := by
   unfold NewSsi.writeBytes
-  simp only [NewSsi.toExternal, h.internal, ↓reduceIte, Bool.false_eq_true, ext_psec h hx, ext_ssec h hx]
+  simp only [NewSsi.toExternal, h.internal, ↓reduceIte, Bool.false_eq_true, ext_psec h hx, ext_ssec h hx, ext_cross h hx]
   rfl
+
+/-- status and file left by `Write` are the same after the switch -/
+theorem write_toExternal (ns : NewSsi) (h : ns.WF) (hx : ns.ExtOK) (cur : Option Bytes) :
+    (ns.toExternal.write cur).2 = (ns.write cur).2 := by
+  have hw := writeBytes_toExternal ns h hx
+  unfold NewSsi.write
+  rw [hw]
+  simp only [NewSsi.toExternal]
+  by_cases c1 : ns.nsecondary > 0 ∧ ns.slen = 0
+  · simp only [c1, and_self, ↓reduceIte]
+  · by_cases c2 : ns.written = true
+    · simp only [c1, c2, ↓reduceIte]
+    · simp only [c1, c2, ↓reduceIte]
+      cases ns.writeBytes <;> rfl
 
 end EaselModel.Ssi
